@@ -96,6 +96,12 @@ func (c *conn) closeNotify() <-chan struct{} {
 	defer c.mu.Unlock()
 	if c.closeNotifyc == nil {
 		c.closeNotifyc = make(chan struct{})
+		if c.clientGone {
+			// The connection has already terminated, nothing will
+			// ever be read from it again.
+			close(c.closeNotifyc)
+			return c.closeNotifyc
+		}
 
 		if msc, isMulti := c.rwc.(MultistreamConn); isMulti {
 			// MultistreamConn provides it's own error handler
@@ -134,6 +140,21 @@ func (c *conn) notifyClientGone() {
 		close(c.closeNotifyc) // unblock readers
 		c.clientGone = true
 	}
+	// Remember the termination for CloseNotify calls made later.
+	c.clientGone = true
+}
+
+// connectionGone is called when the serve loop ends, whatever the reason.
+// It fires the CloseNotify channel, because the pipe copier may never have
+// been started or may never see the end of the stream, and releases a
+// copier that is blocked writing into a pipe nobody reads anymore.
+func (c *conn) connectionGone() {
+	c.notifyClientGone()
+	c.sr.Lock()
+	if pr, ok := c.sr.r.(*io.PipeReader); ok {
+		pr.Close()
+	}
+	c.sr.Unlock()
 }
 
 // Create new connection from rwc.
@@ -184,6 +205,7 @@ func (c *conn) serve() {
 				c.rwc.RemoteAddr().String(), err, buf)
 		}
 		c.rwc.Close()
+		c.connectionGone()
 	}()
 	if tlsConn, ok := c.rwc.(*tls.Conn); ok {
 		if err := tlsConn.Handshake(); err != nil {
